@@ -114,6 +114,9 @@ const TIME_FORMS: &[TimeForm] = &[
     TimeForm { fmt: "%Hh%Mm%Ss %-fns", prec: Prec::Nano, h12: false, letters: true },
 ];
 
+/// text appended for the parse_and_remainder forms: no digit, sign, colon, letter or white space that a trailing field could swallow
+const TAIL: &str = "\u{e9}|rest 9";
+
 fn expect_time(s: u32, f: u32, p: Prec) -> (u32, u32) {
     let leap = if f >= 1_000_000_000 { 1_000_000_000 } else { 0 };
     let fr = f % 1_000_000_000;
@@ -171,6 +174,15 @@ fn run_date(acc: &mut Acc, form: &DateForm, z: i64, buf: &mut String, pert: &mut
             return;
         }
     }
+    // the sibling entry point: the same value, and whatever follows the formatted text is handed back untouched
+    let l0 = buf.len();
+    buf.push_str(TAIL);
+    acc.transitions += 1;
+    match NaiveDate::parse_and_remainder(buf, form.fmt) {
+        Ok((p, rest)) if p == d && rest == TAIL => {}
+        other => acc.violation(&format!("NaiveDate::parse_and_remainder[{}]", form.fmt), format!("NaiveDate::parse_and_remainder({:?}, {:?})", buf, form.fmt), format!("Ok(({:?}, {:?}))", d, TAIL), format!("{:?}", other)),
+    }
+    buf.truncate(l0);
     let (y, _, _) = civil_from_days(z);
     if !(0..=9999).contains(&y) {
         acc.hit_nt(SIGNED);
@@ -208,6 +220,14 @@ fn run_time(acc: &mut Acc, form: &TimeForm, s: u32, f: u32, buf: &mut String, pe
             return;
         }
     }
+    let l0 = buf.len();
+    buf.push_str(TAIL);
+    acc.transitions += 1;
+    match NaiveTime::parse_and_remainder(buf, form.fmt) {
+        Ok((p, rest)) if p == want && rest == TAIL => {}
+        other => acc.violation(&format!("NaiveTime::parse_and_remainder[{}]", form.fmt), format!("NaiveTime::parse_and_remainder({:?}, {:?})", buf, form.fmt), format!("Ok(({:?}, {:?}))", want, TAIL), format!("{:?}", other)),
+    }
+    buf.truncate(l0);
     if f >= 1_000_000_000 {
         acc.hit_nt(LEAP);
     }
@@ -251,6 +271,14 @@ fn run_combined(acc: &mut Acc, df: &DateForm, tf: &TimeForm, sep: &str, z: i64, 
             return;
         }
     }
+    let l0 = buf.len();
+    buf.push_str(TAIL);
+    acc.transitions += 1;
+    match NaiveDateTime::parse_and_remainder(buf, fmt) {
+        Ok((p, rest)) if p == want && rest == TAIL => {}
+        other => acc.violation(&format!("NaiveDateTime::parse_and_remainder[{}]", fmt), format!("NaiveDateTime::parse_and_remainder({:?}, {:?})", buf, fmt), format!("Ok(({:?}, {:?}))", want, TAIL), format!("{:?}", other)),
+    }
+    buf.truncate(l0);
     let letters = df.letters || tf.letters || sep.bytes().any(|c| c.is_ascii_alphabetic());
     perturb(buf, letters, pert);
     for (x, cls) in pert.iter() {
@@ -296,6 +324,15 @@ fn run_combined(acc: &mut Acc, df: &DateForm, tf: &TimeForm, sep: &str, z: i64, 
             match DateTime::parse_from_str(buf, fmt) {
                 Ok(p) if p == wdt && p.offset().local_minus_utc() == o && p.naive_local() == want => acc.hit(RT),
                 other => acc.violation(&format!("DateTime::parse_from_str[{}]", fmt), format!("DateTime::parse_from_str({:?}, {:?})", buf, fmt), format!("Ok({:?})", wdt), format!("{:?}", other)),
+            }
+            if kind == 1 {
+                continue; // %#z with the minutes missing reads to the end of its field only at the end of the input: no tail
+            }
+            buf.push_str(TAIL);
+            acc.transitions += 1;
+            match DateTime::parse_and_remainder(buf, fmt) {
+                Ok((p, rest)) if p == wdt && p.offset().local_minus_utc() == o && rest == TAIL => {}
+                other => acc.violation(&format!("DateTime::parse_and_remainder[{}]", fmt), format!("DateTime::parse_and_remainder({:?}, {:?})", buf, fmt), format!("Ok(({:?}, {:?}))", wdt, TAIL), format!("{:?}", other)),
             }
         }
     }
